@@ -713,7 +713,7 @@ func genCase(r *rand.Rand, allowHuge bool) *Case {
 func triagePending(*Case) bool { return false }
 
 func run(m *mon.M) {
-	sweep := sweepCases(!m.Quick())
+	sweep := append(sweepCases(!m.Quick()), multiSweep()...)
 	n := 0
 	for i, c := range sweep {
 		if i%m.NShards != m.Shard {
@@ -742,4 +742,13 @@ func run(m *mon.M) {
 		runCase(m, c)
 	}
 	m.Note("seeded_cases", int64(total))
+	// part (e), seeded: a PRNG stream of its own, so that the cases of part (b) are what they were
+	rm := m.Rand("several-interfaces")
+	nm := m.N(4000, 30000)
+	for i := 0; i < nm; i++ {
+		c := genMultiCase(rm)
+		m.Begin(c)
+		runCase(m, c)
+	}
+	m.Note("seeded_cases_several_interfaces", int64(nm))
 }
